@@ -135,5 +135,222 @@ theorem rewriteParams_eval (I : Interp ν K) (ps : List String) (hps : ∀ p ∈
     obtain ⟨a', ha, b', hb, d', hd, rfl⟩ := h
     simp [eval, holds, (iha a' ha).1, (ihb b' hb).1, (ihd d' hd).1]
 
+
+/-- the integer-power specialisation of `TBinaryOperation::analyse` preserves the value, provided the
+    exponent test is exact (`small b = n` only when `b` evaluates to `n`; the code tests a `double`)
+    and `pw x n = x ^ n` for integer `n` (true of the real power function) -/
+theorem specialise_eval (I : Interp ν K) (one : ν) (small : Expr ν → Except Err (Option Int))
+    (hone : I.num one = 1)
+    (hsmall : ∀ b n, small b = .ok (some n) → eval I b = (n : K))
+    (hpw : ∀ (x : K) (n : Int), I.pw x (n : K) = x ^ n)
+    (e : Expr ν) : ∀ e', e.specialise one small = .ok e' → eval I e' = eval I e ∧ holds I e' = holds I e := by
+  induction e with
+  | num s v => intro e' h; simp only [specialise, except_pure_ok] at h; subst h; exact ⟨rfl, rfl⟩
+  | var n => intro e' h; simp only [specialise, except_pure_ok] at h; subst h; exact ⟨rfl, rfl⟩
+  | param n => intro e' h; simp only [specialise, except_pure_ok] at h; subst h; exact ⟨rfl, rfl⟩
+  | neg a ih =>
+    intro e' h
+    simp only [specialise, except_bind_ok, except_pure_ok] at h
+    obtain ⟨a', ha, rfl⟩ := h
+    simp [eval, holds, (ih a' ha).1]
+  | bin o a b iha ihb =>
+    intro e' h
+    simp only [specialise, except_bind_ok] at h
+    obtain ⟨a', ha, b', hb, h⟩ := h
+    by_cases ho : o = Op.pow
+    · subst ho
+      simp only [if_true, except_bind_ok] at h
+      obtain ⟨r, hr, h⟩ := h
+      cases r with
+      | none =>
+        simp only [except_pure_ok] at h; subst h
+        simp [eval, holds, (iha a' ha).1, (ihb b' hb).1]
+      | some n =>
+        simp only [except_pure_ok] at h; subst h
+        have hb' := hsmall b' n hr
+        rw [(ihb b' hb).1] at hb'
+        constructor
+        · simp only [makePower]
+          split
+          · rename_i h0
+            have : n = 0 := by simpa using h0
+            subst this
+            simp only [eval, hone, hb', hpw]; simp
+          · simp only [eval, hb', hpw, (iha a' ha).1]
+        · simp only [makePower]; split <;> simp [holds]
+    · simp only [ho, if_false, except_pure_ok] at h; subst h
+      cases o <;> simp_all [eval, holds]
+  | ipow n a ih =>
+    intro e' h
+    simp only [specialise, except_bind_ok, except_pure_ok] at h
+    obtain ⟨a', ha, rfl⟩ := h
+    simp [eval, holds, (ih a' ha).1]
+  | fn1 f c a ih =>
+    intro e' h
+    simp only [specialise, except_bind_ok, except_pure_ok] at h
+    obtain ⟨a', ha, rfl⟩ := h
+    simp [eval, holds, (ih a' ha).1]
+  | fn2 f a b iha ihb =>
+    intro e' h
+    simp only [specialise, except_bind_ok, except_pure_ok] at h
+    obtain ⟨a', ha, b', hb, rfl⟩ := h
+    simp [eval, holds, (iha a' ha).1, (ihb b' hb).1]
+  | cond c a b ihc iha ihb =>
+    intro e' h
+    simp only [specialise, except_bind_ok, except_pure_ok] at h
+    obtain ⟨c', hc, a', ha, b', hb, rfl⟩ := h
+    simp [eval, holds, (iha a' ha).1, (ihb b' hb).1, (ihc c' hc).2]
+  | cmp o a b iha ihb =>
+    intro e' h
+    simp only [specialise, except_bind_ok, except_pure_ok] at h
+    obtain ⟨a', ha, b', hb, rfl⟩ := h
+    cases o <;> simp [eval, holds, (iha a' ha).1, (ihb b' hb).1]
+  | land a b iha ihb =>
+    intro e' h
+    simp only [specialise, except_bind_ok, except_pure_ok] at h
+    obtain ⟨a', ha, b', hb, rfl⟩ := h
+    simp [eval, holds, (iha a' ha).2, (ihb b' hb).2]
+  | lor a b iha ihb =>
+    intro e' h
+    simp only [specialise, except_bind_ok, except_pure_ok] at h
+    obtain ⟨a', ha, b', hb, rfl⟩ := h
+    simp [eval, holds, (iha a' ha).2, (ihb b' hb).2]
+  | lnot a ih =>
+    intro e' h
+    simp only [specialise, except_bind_ok, except_pure_ok] at h
+    obtain ⟨a', ha, rfl⟩ := h
+    simp [eval, holds, (ih a' ha).2]
+  | expd a b d _ _ _ =>
+    intro e' h; simp only [specialise, except_pure_ok] at h; subst h; exact ⟨rfl, rfl⟩
+
 end Expr
+
+/-! ### trees → values: homomorphisms commute with the reference definitions -/
+
+instance {ν : Type} : Alg (Expr ν) := ⟨Expr.neg, Expr.bin⟩
+
+section hom
+variable {α β : Type} [Alg α] [Alg β]
+
+def mapFlat (h : α → β) (s : Flat α) : Flat β := ((s.1.1, h s.1.2), s.2.map (fun e => (e.1, e.2.1, h e.2.2)))
+
+omit [Alg α] [Alg β] in
+theorem flatten_map (h : α → β) (s : Flat α) : (flatten s).map (Item.map h) = flatten (mapFlat h s) := by
+  obtain ⟨⟨n, a⟩, t⟩ := s
+  have ht : ∀ t : List (Entry α), (flattenTail t).map (Item.map h)
+      = flattenTail (t.map (fun e => (e.1, e.2.1, h e.2.2))) := by
+    intro t
+    induction t with
+    | nil => rfl
+    | cons e t ih => obtain ⟨o, m, b⟩ := e; cases m <;> simp [flattenTail, Item.map, ih]
+  cases n <;> simp [flatten, flattenHead, mapFlat, Item.map, ht]
+
+omit [Alg α] [Alg β] in
+theorem mapFlat_WF (h : α → β) (s : Flat α) (hs : s.WF) : (mapFlat h s).WF := by
+  intro e he hsub
+  simp only [mapFlat, List.mem_map] at he
+  obtain ⟨e', he', rfl⟩ := he
+  exact hs e' he' hsub
+
+/-- a homomorphism commutes with the tree of a shape -/
+theorem hom_T5 (h : α → β) (hh : AlgHom h) (s : Flat α) (hs : s.WF) : h (T5 s) = T5 (mapFlat h s) := by
+  have h1 := reduceItems_map h hh (flatten s)
+  rw [flatten_map, reduceItems_flatten s hs, reduceItems_flatten _ (mapFlat_WF h s hs)] at h1
+  simp only [Except.map, List.map_cons, List.map_nil, Item.map, Except.ok.injEq, List.cons.injEq,
+    Item.opnd.injEq, and_true] at h1
+  exact h1.symm
+
+def PowD.map (h : α → β) (p : PowD α) : PowD β := ⟨h p.base, p.exp.map (fun e => (e.1, h e.2))⟩
+def TermD.map (h : α → β) (t : TermD α) : TermD β :=
+  ⟨t.first.map h, t.rest.map (fun e => (e.1, e.2.1, e.2.2.map h))⟩
+def SumD.map (h : α → β) (S : SumD α) : SumD β :=
+  ⟨S.neg, S.first.map h, S.rest.map (fun e => (e.1, e.2.1, e.2.2.map h))⟩
+
+omit [Alg α] [Alg β] in
+theorem PowD.yieldTail_map (h : α → β) (p : PowD α) :
+    (p.map h).yieldTail = p.yieldTail.map (fun e => (e.1, e.2.1, h e.2.2)) := by
+  obtain ⟨b, e⟩ := p; cases e <;> rfl
+
+omit [Alg α] [Alg β] in
+theorem TermD.yieldTail_map (h : α → β) (t : TermD α) :
+    (t.map h).yieldTail = t.yieldTail.map (fun e => (e.1, e.2.1, h e.2.2)) := by
+  simp only [TermD.yieldTail, TermD.map, PowD.yieldTail_map, List.map_append, List.flatMap_map,
+    List.map_flatMap, List.map_cons]
+  rfl
+
+omit [Alg α] [Alg β] in
+theorem SumD.yield_map (h : α → β) (S : SumD α) : (S.map h).yield = mapFlat h S.yield := by
+  simp only [SumD.yield, SumD.map, mapFlat, TermD.yieldTail_map, List.map_append, List.flatMap_map,
+    List.map_flatMap, List.map_cons]
+  rfl
+
+theorem negIf_map (h : α → β) (hh : AlgHom h) (n : Bool) (a : α) : h (negIf n a) = negIf n (h a) := by
+  cases n <;> simp [negIf, hh.neg]
+
+theorem PowD.val_map (h : α → β) (hh : AlgHom h) (p : PowD α) : h p.val = (p.map h).val := by
+  obtain ⟨b, e⟩ := p
+  cases e with
+  | none => rfl
+  | some e => simp [PowD.val, PowD.map, hh.bin, negIf_map h hh]
+
+theorem foldl_hom {γ : Type} (h : α → β) (f : α → γ → α) (g : β → γ → β)
+    (hfg : ∀ a c, h (f a c) = g (h a) c) (l : List γ) (a : α) : h (l.foldl f a) = l.foldl g (h a) := by
+  induction l generalizing a with
+  | nil => rfl
+  | cons c l ih => simp [List.foldl_cons, ih, hfg]
+
+theorem TermD.val_map (h : α → β) (hh : AlgHom h) (t : TermD α) : h t.val = (t.map h).val := by
+  simp only [TermD.val, TermD.map, List.foldl_map]
+  rw [foldl_hom h _ (fun acc (e : Bool × Bool × PowD α) =>
+      Alg.bin (if e.1 then Op.div else Op.mul) acc (negIf e.2.1 (e.2.2.map h).val))]
+  · rw [PowD.val_map h hh]
+  · intro a c; simp [hh.bin, negIf_map h hh, PowD.val_map h hh]
+
+theorem SumD.val3_map (h : α → β) (hh : AlgHom h) (S : SumD α) : h S.val3 = (S.map h).val3 := by
+  simp only [SumD.val3, SumD.map, List.foldl_map]
+  rw [foldl_hom h _ (fun acc (e : Bool × Bool × TermD α) =>
+      Alg.bin (if e.1 then Op.sub else Op.add) acc (negIf e.2.1 (e.2.2.map h).val))]
+  · rw [negIf_map h hh, TermD.val_map h hh]
+  · intro a c; simp [hh.bin, negIf_map h hh, TermD.val_map h hh]
+
+omit [Alg α] [Alg β] in
+theorem SumD.map_WF (h : α → β) (S : SumD α) (hS : S.WF) : (S.map h).WF := by
+  intro e he hsub
+  simp only [SumD.map, List.mem_map] at he
+  obtain ⟨e', he', rfl⟩ := he
+  exact hS e' he' hsub
+
+end hom
+
+/-! ### the yield of a derivation of the textbook grammar is a shape -/
+
+theorem SumD.yield_WF {α : Type} (S : SumD α) (hS : S.WF) : S.yield.WF := by
+  intro e he hsub
+  have hp : ∀ (p : PowD α), ∀ e ∈ p.yieldTail, e.1 = Op.pow := by
+    intro p e he
+    obtain ⟨b, ex⟩ := p
+    cases ex with
+    | none => simp [PowD.yieldTail] at he
+    | some x => simp [PowD.yieldTail] at he; rw [he]
+  have ht : ∀ (t : TermD α), ∀ e ∈ t.yieldTail, e.1 ≠ Op.sub := by
+    intro t e he
+    simp only [TermD.yieldTail, List.mem_append, List.mem_flatMap, List.mem_cons] at he
+    rcases he with h | ⟨x, _, rfl | h⟩
+    · rw [hp _ e h]; simp
+    · cases x.1 <;> simp
+    · rw [hp _ e h]; simp
+  simp only [SumD.yield, List.mem_append, List.mem_flatMap, List.mem_cons] at he
+  rcases he with h | ⟨x, hx, rfl | h⟩
+  · exact absurd hsub (ht _ e h)
+  · have := hS x hx
+    revert hsub this; cases x.1 <;> simp
+  · exact absurd hsub (ht _ e h)
+
+/-- in a field the code's five levels compute the standard value of a derivation of the textbook grammar -/
+theorem T5_yield_val3 {K : Type} [Field K] [HasPw K] (S : SumD K) (hS : S.WF) : T5 S.yield = S.val3 := by
+  have h := toE_levels S.yield (S.yield_WF hS)
+  rw [toE_yield, levelsE_blocks] at h
+  simp only [toE, List.cons.injEq, Prod.mk.injEq] at h
+  exact h.1.2.2
+
 end TfelVerif.C13
